@@ -477,7 +477,7 @@ func c11v2(h *H) {
 		c := ScoreCase{Ver: 0, A: v2Decode(int(bad))}
 		err := safely(checkScoreShape, c)
 		if err == nil {
-			h.t.Fatalf("HARNESS-ERROR C11 v2 index %d flagged but single-case check passes", bad)
+			walkDisagrees(h, "C11", 0, int(bad), fmt.Sprintf("v2 index %d", bad))
 		}
 		h.fail("score-shape", c, err)
 	}
@@ -561,7 +561,7 @@ func c11v3(h *H, ver int) {
 		c := v3ClassDecode(ver, int(bad))
 		err := safely(checkScoreShape, c)
 		if err == nil {
-			h.t.Fatalf("HARNESS-ERROR C11 v%s index %d flagged but single-case check passes", v.Name, bad)
+			walkDisagrees(h, "C11", ver, int(bad), fmt.Sprintf("v%s index %d", v.Name, bad))
 		}
 		h.fail("score-shape", c, err)
 	}
@@ -603,7 +603,7 @@ func c11v4(h *H) {
 		c := v4ClassCase(bad)
 		err := safely(checkScoreShape, c)
 		if err == nil {
-			h.t.Fatalf("HARNESS-ERROR C11 v4 class %d flagged but single-case check passes", bad)
+			walkDisagrees(h, "C11", 3, bad, fmt.Sprintf("v4 class %d", bad))
 		}
 		h.fail("score-shape", c, err)
 	}
@@ -611,6 +611,10 @@ func c11v4(h *H) {
 
 func TestC11(t *testing.T) {
 	h := start(t, "C11", "every scoring method evaluated on the complete class spaces (v2.0: all 139,968,000 assignments; v3.0 and v3.1: 16,588,800 effective classes each; v4.0: 15,116,544 effective classes) on rapid lifts into the raw spaces (corner profiles, Modified metrics, supplemental metrics), and after every Set step of operation histories (objects on which a metric has been set repeatedly); predicate: finite, bit-exact float64 nearest to k/10, 0 <= k <= 100 (v2.0 EnvironmentalScore: k <= 100 only), Rating accepts it; non-trivial = score > 0; enumerated classes distinct by construction, lifts by assignment")
+	if h.replaying() && h.replay.Kind == "concurrent-classes" {
+		doReplay(h, "concurrent-classes", runConcBatch)
+		return
+	}
 	if h.replaying() && h.replay.Kind == "score-shape" {
 		doReplay(h, "score-shape", checkScoreShape)
 		return
